@@ -25,7 +25,9 @@ class C07(FCheck):
     def gen_case(self, r, idx, tier):
         driver, workers, bs = gen.pick_config(r, multiblock=True)
         cap = 3000 if bs < 64 else 150_000
-        shape = r.choice(["specials", "empty", "manyblocks", "plain", "plain", "manyfiles"])
+        shape = r.choice(["specials", "empty", "manyblocks", "plain", "plain", "manyfiles", "past-eof"])
+        if idx % 16 == 5:
+            shape = "manyfiles-special"
         ops = [gen.d_op("src")]
         if shape == "specials":
             ops = gen.small_tree(r, "src", nfiles=r.randrange(0, 4), links=True, specials=True, sizes=lambda rr: gen.boundary_size(rr, bs, cap=cap), bs=bs)
@@ -41,6 +43,28 @@ class C07(FCheck):
         elif shape == "manyfiles":
             for i in range(r.randrange(20, 150)):
                 ops.append(gen.f_op("src/n%03d" % i, r.randrange(0, 200), pat=i + 1))
+        elif shape == "manyfiles-special":
+            # a special file whose creation fails is the first operation; more entries than any reasonable queue bound follow
+            workers = r.choice([1, 1, 2, 3])
+            for w in range(workers):
+                ops.append(gen.n_op("src/%dpipe" % w, r.choice(["fifo", "sock"]), 0, 0, 0o644))
+            ops.append(gen.d_op("src/big"))
+            for i in range(r.randrange(1100, 1400)):
+                if i % 300 == 0:
+                    ops.append(gen.d_op("src/big/d%d" % (i // 300)))
+                ops.append({"op": "file", "p": "src/big/d%d/n%04d" % (i // 300, i), "len": i % 5, "runs": [[0, i % 5, i + 1]] if i % 5 else []})
+            ops.append(gen.d_op("dst"))
+            for w in range(workers):
+                ops.append(gen.d_op("dst/%dpipe" % w))
+            driver = r.choice(["parfile", "parfile", "parfile", "parblock"])
+            multi_src = ["src/%dpipe" % w for w in range(workers)] + ["src/big"]
+        elif shape == "past-eof":
+            # a sparse file whose extent map reaches beyond EOF (rounded last extent, preallocation): block jobs past EOF
+            driver = "parblock"
+            bs = r.choice([512, 1000, 4096])
+            ln, runs = gen.sparse_layout(r, style=r.choice(["tail-unaligned", "inter", "trail"]), max_runs=3)
+            ops.append(gen.f_op("src/sp", ln, runs=runs))
+            past_eof = True
         else:
             ops = gen.small_tree(r, "src", nfiles=r.randrange(1, 7), links=True, specials=r.random() < 0.2, sizes=lambda rr: gen.boundary_size(rr, bs, cap=cap), bs=bs)
         flags = {"r": True}
@@ -50,16 +74,23 @@ class C07(FCheck):
             flags["n"] = True
         if r.random() < 0.3:
             ops.append(gen.d_op("dst"))
-        if idx % 20 == 7:
+        if idx % 20 == 7 and shape not in ("manyfiles-special", "past-eof"):
             # a regular file mapped onto an existing FIFO in the destination
             ops.append(gen.f_op("src/onto", 100, pat=5))
             ops.append(gen.d_op("dst"))
             ops.append(gen.d_op("dst/src"))
             ops.append(gen.n_op("dst/src/onto", "fifo", 0, 0, 0o644))
             flags.pop("n", None)
-        inv = gen.mk_inv(["src"], "dst", driver=driver, workers=workers, block_size=bs, **flags)
-        case = {"setup": ops, "steps": [{"inv": inv}], "max_events": 2_000_000, "timeout_s": 120}
-        if idx % 4 == 3:
+        inv = gen.mk_inv(multi_src if shape == "manyfiles-special" else ["src"], "dst", driver=driver, workers=workers, block_size=bs, **flags)
+        if shape == "manyfiles-special":
+            inv["flags"].pop("n", None)
+        case = {"setup": ops, "steps": [{"inv": inv}], "max_events": 200_000, "timeout_s": 30}
+        if shape == "past-eof":
+            case["kernel"] = {"fiemap": "emulate", "fiemap_round_eof": r.random() < 0.7, "fiemap_past_eof": r.choice([0, 4096, 65536])}
+            if not case["kernel"]["fiemap_round_eof"] and not case["kernel"]["fiemap_past_eof"]:
+                case["kernel"]["fiemap_past_eof"] = 8192
+            case["steps"][0]["inv"]["flags"].pop("n", None)
+        if idx % 4 == 3 and shape not in ("manyfiles-special", "past-eof"):
             inv["workers"] = min(inv["workers"], 16)
             updater = r.choice(["record", "channel", "noop"])
             mode = r.choice(["thread", "inline"])
